@@ -17,7 +17,7 @@ RULE = ('Documents: fixtures; generated documents (charset E, markup-rich value 
         'non-trivial = distinct documents whose error messages echo >=1 markup canary.')
 ASSUMPTIONS = ['a segment without any element is listed as "SEG*~" by design of the formatter (don\'t-care)', 'messages of interchange/group/set level errors are not located (the property names segment- and element-level errors)',
                'blanks are rendered as &nbsp;: U+00A0 and U+0020 are identified when comparing']
-REQUIRED_COUNTERS = ['docs:composite-level-findings-with-markup-separator', 'docs:cut-off-with-markup-in-control-numbers', 'cli:invocations', 'cli:reports-compared', 'docs:envelope-element-findings', 'inputs:envelope-soup', 'docs', 'docs:with-errors', 'seg-lines-compared', 'messages-located', 'messages-with-format-directive', 'messages-with-canary', 'docs:multi-interchange', 'docs:other-delimiters']
+REQUIRED_COUNTERS = ['docs:with-TA1', 'docs:composite-level-findings-with-markup-separator', 'docs:cut-off-with-markup-in-control-numbers', 'cli:invocations', 'cli:reports-compared', 'docs:envelope-element-findings', 'inputs:envelope-soup', 'docs', 'docs:with-errors', 'seg-lines-compared', 'messages-located', 'messages-with-format-directive', 'messages-with-canary', 'docs:multi-interchange', 'docs:other-delimiters']
 MIN_CASES = {'quick': 500, 'thorough': 15000}
 WATCHDOG_S = {'quick': 1200, 'thorough': 7200}
 
@@ -451,6 +451,14 @@ def run(ctx):
             ctx.count('docs:cut-off-with-markup-in-control-numbers')
         if fam == 'canaries':
             doc = plant_canaries(rng, doc, rng.randint(1, 5), terms)
+        if k % 5 == 2 and fam != 'soup':
+            # a segment of the interchange that stands outside every group: the interchange acknowledgement, after the ISA or before the IEA
+            doc = gen_doc.add_ta1(doc, ['after-isa', 'before-iea'][(k // 5) % 2])
+            if fam == 'canaries':
+                r_ = [x for x in doc.recs if x.node.id == 'TA1'][0]
+                r_.vals[1] = [c for c in CANARIES if not any(t in c for t in terms)][k % 7]         # a date that is none: echoed in its message
+            kinds.append('ta1')
+            ctx.count('docs:with-TA1')
         text = doc.text(terms[0], terms[1], terms[2], '\n' if terms[0] != '\n' else '')
         if cut_off:
             unit = terms[0] + ('\n' if terms[0] != '\n' else '')
